@@ -80,7 +80,7 @@ def main():
             "summary": agent.get("summary", ""),
             "needs_to_manifest": agent.get("needs", ""),
             "files": agent.get("files", []),
-            "origin": "independent sub-agent given only the property text and a scratch worktree; confirmed by hand: demo.py exits 1 with the change and 0 without, repository tests unchanged (94 pass, same 4 pre-existing failures)",
+            "origin": agent.get("origin") or "independent sub-agent given only the property text and a scratch worktree; confirmed by hand: demo.py exits 1 with the change and 0 without, repository tests unchanged (94 pass, same 4 pre-existing failures)",
             "what_was_run": "tools/run_seeded.py: patch applied to a scratch copy of /repo/src, then `checks/c14.py --tier quick --no-evidence` with CHMPY_VERIF_SRC pointing at the copy",
             "result": res,
             "detected": res.get("exit") == 1,
